@@ -16,7 +16,7 @@ var forkPkgs = []string{"phase0", "altair", "bellatrix", "capella", "deneb", "el
 
 func init() {
 	register(&Rule{Name: "sibling.cmp", Floor: 60,
-		Doc: "per-fork copies of one function (same name in phase0/altair/bellatrix/capella/deneb/electra) make the same REFUSING comparisons (those that govern an error, false, REJECT/IGNORE, continue or break: the checks a copy can lose; a comparison that selects a value is formula.spec's) as their nearest predecessor, up to the deltas frozen in siblingDeltas (each a spec change of that fork, with its reason). Comparisons are cuts with a refusal side; two copies' comparisons cancel when they agree once locals and one-line helpers are read through (equal names alone do not cancel: the same name may be defined differently), or when they agree named by type AND resolved; a refusing comparison of one copy also cancels against the same test made without refusing in the other (a `continue` guard hoisted into a condition around the loop); nil/error/boolean-literal tests and plain counting loops over len(x) are left out; a copy that walks a local table of rows is not compared here. A slip in one copy (operator, constant, field, dropped or added test) changes the difference and is reported with both copies' positions",
+		Doc: "per-fork copies of one function (same name in phase0/altair/bellatrix/capella/deneb/electra) make the same REFUSING comparisons (those that govern an error, false, REJECT/IGNORE, continue or break: the checks a copy can lose; a comparison that selects a value is formula.spec's) as their nearest predecessor, up to the deltas frozen in siblingDeltas (each a spec change of that fork, with its reason). Comparisons are cuts with a refusal side; two copies' comparisons cancel when they agree once locals and one-line helpers are read through (equal names alone do not cancel: the same name may be defined differently), or when they agree named by type AND resolved; a refusing comparison of one copy also cancels against the same test made without refusing in the other (a `continue` guard hoisted into a condition around the loop); nil/error/boolean-literal tests and plain counting loops over len(x) are left out; a copy that walks a local table of rows is not compared here; a residual that agrees by name and type but involves, in one copy, what a function-valued local returned, or tests over a local the other copy does not have (with the rest of the residual accepted), is undecided. A slip in one copy (operator, constant, field, dropped or added test) changes the difference and is reported with both copies' positions",
 		Run: ruleSiblingCmp})
 	if len(os.Args) > 1 && os.Args[1] == "siblings" {
 		os.Exit(cmdSiblings(os.Args[2:]))
@@ -57,6 +57,9 @@ type sibItem struct {
 	sn, sr, sa string // the side of each form's cut on which the path is refused or skipped ("" unknown)
 	uses       []string
 	pos        token.Pos // where the comparison stands (not part of the recorded residual)
+	roots      []string  // the variables of its function the comparison is written over (first component of each operand)
+	private    bool      // written over a local of its copy that the other copy does not have (and no test of its shape is left there)
+	opaque     bool      // read through its locals, the comparison involves what a function-valued LOCAL returned: not readable
 }
 
 func (it sibItem) String() string { return it.sign + it.n + "¦" + it.r + "¦" + it.a }
@@ -78,6 +81,7 @@ func parseSibItems(s string) []sibItem {
 
 type sibDiff struct {
 	name, base, fork string
+	unread           []string // comparisons that agree by name and by type but involve an unreadable local on one side
 	items            []sibItem
 	pos              token.Pos
 	n                int
@@ -138,6 +142,8 @@ func siblingDiffs(all map[string][]cmpSite) []sibDiff {
 			}
 			mk := func(ss []cmpSite, sign string) []sibItem {
 				var out []sibItem
+				pkgOf := map[string]string{"-": prev, "+": f}[sign]
+				fvars := localFuncVars(pkgOf + "." + name)
 				for _, s := range ss {
 					it := sibItem{sign: sign, n: canonCut(s.p, s.cop()), r: canonCut(s.pr, s.cop()), a: canonCutAbs(s.pa, s.cop()), pos: s.pos}
 					it.sa = cutSide(lastAbsPoly, s.rop)
@@ -145,6 +151,20 @@ func siblingDiffs(all map[string][]cmpSite) []sibDiff {
 					it.sn, it.sr = cutSide(s.p, s.rop), cutSide(s.pr, s.rop)
 					for u := range s.uses {
 						it.uses = append(it.uses, u)
+					}
+					for _, a := range atomsOf(s.p) {
+						if strings.HasPrefix(a, "len(") {
+							a = a[4:]
+						}
+						if k := strings.IndexAny(a, ".[()"); k > 0 {
+							a = a[:k]
+						}
+						it.roots = append(it.roots, a)
+					}
+					for _, a := range atomsOf(s.pr) {
+						if k := strings.Index(a, "("); k > 0 && fvars[a[:k]] {
+							it.opaque = true
+						}
 					}
 					out = append(out, it)
 				}
@@ -181,6 +201,16 @@ func siblingDiffs(all map[string][]cmpSite) []sibDiff {
 				stillDeclaredAt = token.NoPos
 				return len(sw) == 0
 			})
+			// the same test by name and by type, where one copy's operand is what a function-valued local returned
+			// (`get := state.Previous…; if c { get = state.Current… }; cp, err := get()`): its definition cannot be
+			// read, so neither "the same" nor "defined differently" is known — undecided
+			cancel(func(x, y sibItem) bool {
+				if x.n == y.n && x.a == y.a && pol(x.sn, y.sn) && (x.opaque || y.opaque) {
+					d.unread = append(d.unread, y.n)
+					return true
+				}
+				return false
+			})
 			// what is left on one side may still be made by the other copy where it governs no refusal there (a
 			// `continue` guard hoisted into a condition around the loop, a test that selects instead of skipping)
 			drop := func(items []sibItem, pool []cmpSite) []sibItem {
@@ -201,6 +231,34 @@ func siblingDiffs(all map[string][]cmpSite) []sibDiff {
 			}
 			bs = drop(bs, other[name][f])
 			fs = drop(fs, other[name][prev])
+			// a test left on one side that is written over a LOCAL the other copy does not have (a sentinel index
+			// `first` where the other copy keeps a pointer and tests it for nil): it is about state the other copy
+			// does not keep, so it is neither a check that copy lost nor one it can be compared with — undecided
+			overOwnLocal := func(items, opposite []sibItem, own, otherFn string) []sibItem {
+				ownLocals, otherVars := localVarsOf(own, false), localVarsOf(otherFn, true)
+				var keep []sibItem
+				for _, it := range items {
+					private := false
+					for _, r := range it.roots {
+						if ownLocals[r] && !otherVars[r] {
+							private = true
+						}
+					}
+					// (a test of the same shape left on the other side too is the pair "same test, other operand",
+					// which is reported or recorded as such)
+					for _, o := range opposite {
+						if o.a == it.a {
+							private = false
+						}
+					}
+					it.private = private
+					keep = append(keep, it)
+				}
+				return keep
+			}
+			bs0, fs0 := append([]sibItem{}, bs...), append([]sibItem{}, fs...)
+			bs = overOwnLocal(bs, fs0, prev+"."+name, f+"."+name)
+			fs = overOwnLocal(fs, bs0, f+"."+name, prev+"."+name)
 			d.items = append(append(d.items, bs...), fs...)
 			sort.Slice(d.items, func(i, j int) bool { return d.items[i].sign+d.items[i].a < d.items[j].sign+d.items[j].a })
 			out = append(out, d)
@@ -284,6 +342,29 @@ func ruleSiblingCmp(c *Ctx) {
 		seen[k] = true
 		w, tabled := want[k]
 		got := d.show()
+		// the residual without the tests written over a copy-private local (a sentinel index `first` where the other
+		// copy keeps a pointer and tests it for nil): they are about state the other copy does not keep — neither
+		// checks that copy lost nor ones it can be compared with. Only asked when the full residual is not accepted.
+		d2 := d
+		d2.items = nil
+		var private []string
+		for _, it := range d.items {
+			if it.private {
+				private = append(private, it.n)
+			} else {
+				d2.items = append(d2.items, it)
+			}
+		}
+		accepted := func(x sibDiff) bool {
+			if tabled {
+				return w.rewrite || x.matches(w.delta)
+			}
+			return len(x.items) == 0
+		}
+		if len(private) > 0 && !accepted(d) && accepted(d2) && !strings.Contains(d.sig(), "§struct{") {
+			c.unm(key, d.pos, "%s.%s and %s.%s agree (up to the recorded fork delta) except for %d comparison(s) (%s) written over a local the other copy does not have: not comparable by this rule", d.fork, d.name, d.base, d.name, len(private), strings.Join(private, " ; "))
+			continue
+		}
 		switch {
 		case tabled && w.rewrite:
 			c.info(key, d.pos, "the %s version is a different algorithm (%s); not compared", d.fork, w.why)
@@ -295,6 +376,8 @@ func ruleSiblingCmp(c *Ctx) {
 			c.ok(key, d.pos, "differs from %s exactly by the recorded fork delta (%s)", d.base, w.why)
 		case tabled:
 			c.bad(key, d.pos, "%s.%s and %s.%s no longer differ by the recorded fork delta (%s).\n      recorded: %s\n      now:      %s", d.fork, d.name, d.base, d.name, w.why, showRecorded(w.delta), got)
+		case got == "" && len(d.unread) > 0:
+			c.unm(key, d.pos, "%s.%s and %s.%s agree except for %d comparison(s) (%s) that, in one copy, involve the result of a call through a function-valued local or are written over a local the other copy does not have: not comparable by this rule", d.fork, d.name, d.base, d.name, len(d.unread), strings.Join(d.unread, " ; "))
 		case got == "":
 			c.ok(key, d.pos, "%d comparisons, the same as in %s", d.n, d.base)
 		default:
@@ -463,4 +546,47 @@ func showRecorded(delta string) string {
 		parts = append(parts, it.sign+it.a)
 	}
 	return strings.Join(parts, " ; ")
+}
+
+// localFuncVars: the names of the function-typed local variables of fn ("pkg.Name").
+func localFuncVars(fn string) map[string]bool {
+	out := map[string]bool{}
+	d, ok := cmpDecls[fn]
+	if !ok || d.fd.Body == nil {
+		return out
+	}
+	ast.Inspect(d.fd.Body, func(n ast.Node) bool {
+		if id, ok := n.(*ast.Ident); ok {
+			if v, ok := d.pk.TypesInfo.Defs[id].(*types.Var); ok && v != nil {
+				if _, isFn := v.Type().Underlying().(*types.Signature); isFn {
+					out[id.Name] = true
+				}
+			}
+		}
+		return true
+	})
+	return out
+}
+
+// localVarsOf: the names of the variables declared in the body of fn ("pkg.Name"); with params, its parameters, results
+// and receiver as well.
+func localVarsOf(fn string, params bool) map[string]bool {
+	out := map[string]bool{}
+	d, ok := cmpDecls[fn]
+	if !ok || d.fd.Body == nil {
+		return out
+	}
+	var root ast.Node = d.fd.Body
+	if params {
+		root = d.fd
+	}
+	ast.Inspect(root, func(n ast.Node) bool {
+		if id, ok := n.(*ast.Ident); ok {
+			if v, ok := d.pk.TypesInfo.Defs[id].(*types.Var); ok && v != nil && !v.IsField() {
+				out[id.Name] = true
+			}
+		}
+		return true
+	})
+	return out
 }
